@@ -4,7 +4,7 @@ From Coq Require Import Extraction ExtrOcamlBasic.
 From PM Require Import Model.Prelude Model.Domain Model.Constraint Model.BindAll Model.Scheme
   Model.BindMaps Model.DomTable Model.DomString Model.DomMatrix Model.Toposort Model.Automaton Model.Traversal Model.Matchers
   Cert.LabCheck Cert.WfCheck Cert.WinCheck Cert.CharCert Cert.PGCert Cert.UnambCheck Spec.Occ
-  Model.CTree Model.DomPGKeys Model.DomPG Model.DomPGPattern Model.CTreeChar Proofs.PGLawful Proofs.TableLawful Cert.SchemeCheck Cert.TopoCheck.
+  Model.CTree Model.DomPGKeys Model.DomPG Model.DomPGPattern Model.CTreeChar Proofs.PGLawful Proofs.TableLawful Cert.SchemeCheck Cert.TopoCheck Model.ManyGlue.
 
 Extraction Language OCaml.
 Set Extraction KeepSingleton.
@@ -17,7 +17,7 @@ Extraction "model.ml"
   (* maps *) aget abind aretain retain_default
   (* maps *) mrun retain_rounds_default mmget_panics
   (* C15 *) hist_okb ts_init ts_next ts_run
-  (* engine *) run single match_exists naive
+  (* engine *) compile pattern_table get_pattern n_patterns run single match_exists naive
   (* certificates *) wf_check arity_ok compute_rank lab_ok compute_lab cert_complete char_entails char_refutes
      atoms_self s_goodb m_goodb s_keys_tight m_keys_tight m_keys_nn slab_ok cert_unamb compute_slab compute_slab_cap accept_vdet empty_keys_at_root empty_scope_closed empty_pattern_keys char_ceqb
   (* trees *) with_children with_pairwise_mutex with_transitive_mutex with_powerset char_tree pg_tree
